@@ -59,6 +59,8 @@ def replay(ctx, path):
     spec = FAMILIES.get(fam)
     if spec is None:
         raise Infra("no replay route for family %s" % fam)
+    if spec.get("race"):
+        vlib.build_harness_race(ctx)
     case = {"fam": fam, "id": rec.get("cid", rec["id"]), "src": rec.get("src", "tlc"), "case": rec["case"]}
     res = run_family(ctx, fam, spec["module"], [], spec["judge"], extra_cases=[case])
     fails = vlib.collect_failures(res["trace"], res["bad"], fam, only_prefix=ctx.prop)
@@ -77,6 +79,7 @@ FAMILIES = {
     "camel": {"module": "CamelCase", "judge": "CamelCaseTrace"},
     "typeref": {"module": "TypeRef", "judge": "TypeRefTrace"},
     "template": {"module": "Template", "judge": "TemplateTrace"},
+    "inflect": {"module": "Inflector", "judge": "InflectorTrace", "race": True},
 }
 
 
@@ -199,8 +202,44 @@ def check_C09(ctx):
     ], fails)
 
 
+def check_C20(ctx):
+    t = ctx.tier
+    vlib.build_harness_race(ctx)
+    vlib.tlc_check(ctx, "InflectorCache", "InflectorCache_A_%s.cfg" % t, workers=8)
+    res = run_family(ctx, "inflect", "Inflector", ["Inflector_gen.cfg"], "InflectorTrace",
+                     rand_n=3000 if ctx.quick() else 45000, shard=4000)
+    fails = vlib.collect_failures(res["trace"], res["bad"], "inflect", only_prefix="C20")
+    tr = res["trace"]
+    conc = [r for r in tr if r["case"]["kind"] == "conc"]
+    drift = sum(1 for r in tr if r["case"]["kind"] != "conc" and not r["obs"]["table_ok"])
+    cov = {
+        "traces_validated_against_impl": len(tr),
+        "evaluations": len(tr),
+        "distinct_nontrivial": _distinct(tr, lambda r: r["case"]["kind"] == "conc" or r["conc"]["law"] or r["case"]["kind"] == "random",
+                                         key=lambda r: json.dumps([r["case"], r["conc"].get("text")], sort_keys=True)),
+        "rule": "InflectorCache.tla: every interleaving of the LoadOrStore/OnceValue protocol for the tier's goroutines x keys x calls (TLC, with "
+                "fairness for 'every caller returns'). Inflector.tla: every irregular word of both rule tables x {lower,UPPER,Title} x 5 prefixes x 6 "
+                "boundaries, uninflected samples, as initial states; each replayed into Pluralize/Singularize (twice, plus the word alone); seeded random "
+                "strings incl. case-folding specials; concurrent rounds (4-8 goroutines, overlapping keys, cold cache, race detector on) recorded as "
+                "call/ret events. Non-trivial = distinct cases where the prefix law applies, random strings, and concurrent rounds.",
+        "exhaustive": True,
+        "concurrent_rounds": len(conc),
+        "concurrent_events": sum(len(r["obs"]["events"]) for r in conc),
+        "drift_vs_irregular_table": drift,
+        "samples": [{"case": r["case"], "text": r["conc"].get("text"), "out": vlib.text_of(r["obs"].get("out", []))}
+                    for r in tr[:: max(1, len(tr) // 4)][:4]] + [{"case": r["case"], "events": r["obs"]["events"][:12]} for r in conc[:1]],
+        "abstract_cases": res["n_cases"],
+    }
+    return vlib.finish(ctx, "model_checking", cov, [
+        "the prefix law is judged only where the statement applies: an irregular word of the rule tables directly preceded by a non-word boundary",
+        "goroutine interleavings of the real code are sampled (scheduler not controllable); all interleavings are covered on the protocol model only",
+        "Go race detector and sync.Map/sync.OnceValue semantics are trusted",
+    ], fails)
+
+
 CHECKS = {
     "C09": check_C09,
     "C15": check_C15,
     "C19": check_C19,
+    "C20": check_C20,
 }
